@@ -5,19 +5,22 @@ Require Import Lia.
 Local Open Scope N_scope.
 
 (* ------------------------------------------------------------------ domain of the round trips *)
+(* an id / argument name that comes back unchanged whether or not the writer escapes it *)
+Definition id_ok (s : str) : bool := raw_plain s && safe_str s.
+
 Definition safe_loc (l : loc) : bool := safe_str (l_file l) && in_i32 (l_line l) && in_i32 (l_col l).
 Definition safe_floc (p : floc) : bool :=
   safe_str (fl_file p) && in_i32 (fl_line p) && ((0 <=? fl_col p) && (fl_col p <? 4294967296))%Z && safe_str (fl_info p).
 Definition safe_fc (f : fcall) : bool :=
-  raw_plain (fc_id f) && in_i32 (fc_argnr f) && safe_str (fc_fname f) && safe_loc (fc_loc f) &&
+  id_ok (fc_id f) && in_i32 (fc_argnr f) && safe_str (fc_fname f) && safe_loc (fc_loc f) &&
   safe_str (fc_argexpr f) && ((0 <=? fc_vtype f) && (fc_vtype f <? 256))%Z &&
   ((0 <=? fc_ufr f) && (fc_ufr f <=? 255))%Z && forallb safe_floc (fc_path f).
 Definition safe_nc (n : ncall) : bool :=
-  raw_plain (nc_id n) && in_i32 (nc_argnr n) && safe_str (nc_fname n) && safe_loc (nc_loc n) &&
-  raw_plain (nc_myid n) && in_i32 (nc_myargnr n).
+  id_ok (nc_id n) && in_i32 (nc_argnr n) && safe_str (nc_fname n) && safe_loc (nc_loc n) &&
+  id_ok (nc_myid n) && in_i32 (nc_myargnr n).
 Definition safe_ctu (c : ctu) : bool := forallb safe_fc (c_fcs c) && forallb safe_nc (c_ncs c).
 Definition safe_uu (u : uusage) : bool :=
-  raw_plain (u_myid u) && in_i32 (u_myargnr u) && raw_plain (u_argname u) && safe_loc (u_loc u).
+  id_ok (u_myid u) && in_i32 (u_myargnr u) && id_ok (u_argname u) && safe_loc (u_loc u).
 Definition safe_nl (n : nameloc) : bool :=
   safe_str (nl_class n) && safe_str (nl_file n) && safe_str (nl_cfg n) && in_i32 (nl_line n) && in_i32 (nl_col n) &&
   ((0 <=? nl_hash n) && (nl_hash n <? 18446744073709551616))%Z.
@@ -27,6 +30,12 @@ Definition safe_ui (u : unused_info) : bool := forallb safe_fd (ui_decls u) && f
 Definition safe_fsum (s : fsum) : bool :=
   safe_ctu (s_ctu s) && forallb safe_uu (s_null s) && forallb safe_uu (s_uninit s) &&
   forallb safe_uu (s_aidx s) && forallb safe_uu (s_parith s) && forallb safe_nl (s_odr s).
+
+Lemma dec_wr esc s : id_ok s = true -> dec (wr esc s) = s.
+Proof.
+  unfold id_ok. intro H. apply andb_prop in H as [H1 H2].
+  destruct esc; cbn [wr]; [apply dec_toxml_safe|apply dec_raw_plain]; assumption.
+Qed.
 
 Lemma wrap32_id z : in_i32 z = true -> wrap32 z = z.
 Proof.
@@ -119,7 +128,7 @@ Proof.
   apply andb_prop in H as [H1 H2].
   unfold fc_to_xml, base_attrs. rewrite load_fc_generic. rewrite (load_path_rt _ H8).
   rewrite H7.
-  rewrite (dec_raw_plain _ H1), (wrap32_id _ H2), (dec_toxml_safe _ H3), (safe_loc_rt _ H4), (dec_toxml_safe _ H5).
+  rewrite (dec_wr _ _ H1), (wrap32_id _ H2), (dec_toxml_safe _ H3), (safe_loc_rt _ H4), (dec_toxml_safe _ H5).
   apply andb_prop in H6 as [H6a H6b]. apply Z.leb_le in H6a. apply Z.ltb_lt in H6b.
   rewrite Z.mod_small by lia. destruct f; reflexivity.
 Qed.
@@ -130,7 +139,7 @@ Proof.
   apply andb_prop in H as [H H6]. apply andb_prop in H as [H H5]. apply andb_prop in H as [H H4].
   apply andb_prop in H as [H H3]. apply andb_prop in H as [H1 H2].
   unfold nc_to_xml, base_attrs. rewrite load_nc_generic.
-  rewrite (dec_raw_plain _ H1), (wrap32_id _ H2), (dec_toxml_safe _ H3), (safe_loc_rt _ H4), (dec_raw_plain _ H5), (wrap32_id _ H6).
+  rewrite (dec_wr _ _ H1), (wrap32_id _ H2), (dec_toxml_safe _ H3), (safe_loc_rt _ H4), (dec_wr _ _ H5), (wrap32_id _ H6).
   destruct n; reflexivity.
 Qed.
 
@@ -218,7 +227,7 @@ Proof.
   intros nm u H. unfold safe_uu in H.
   apply andb_prop in H as [H H4]. apply andb_prop in H as [H H3]. apply andb_prop in H as [H1 H2].
   unfold uu_to_xml. rewrite load_uu_generic.
-  rewrite (dec_raw_plain _ H1), (wrap32_id _ H2), (dec_raw_plain _ H3), (safe_loc_rt _ H4).
+  rewrite (dec_wr _ _ H1), (wrap32_id _ H2), (dec_wr _ _ H3), (safe_loc_rt _ H4).
   destruct u; reflexivity.
 Qed.
 
